@@ -134,3 +134,59 @@ Proof.
   intros Hc Hi Hw. rewrite render_tree_list. destruct (columns <=? 0)%Z eqn:E; [lia|]. cbv zeta.
   rewrite text_items_refused; [reflexivity|]. exists i. split; [exact Hi|exact Hw].
 Qed.
+
+(* ------------------------------------------------------------------ blank elsewhere / determined, plain items *)
+From SL Require Import proofs.ContainersBlank.
+
+Lemma plain_list_determined kind columns items forced spacing kp w b :
+  (0 <= spacing)%Z -> Forall plain_tree items ->
+  render_tree (WList kind columns items forced spacing kp) w = ROk b ->
+  let cw := list_columns_width columns forced spacing w in
+  let omap := ordered_map kind (length items) (Z.to_nat columns) in
+  exists rendered,
+    render_all_items render_tree items 0 cw kp = ROk rendered /\
+    Forall (item_fits (Z.to_nat cw)) rendered /\
+    let ps := all_placements omap (lines_per_every_row omap (map item_height rendered)) 0 (Z.to_nat (cw + spacing)) in
+    let stamps := list_stamps rendered ps in
+    length b = spec_height stamps /\
+    (forall i j, cell b i j = spec_cell stamps i j) /\
+    (forall i j s, In s stamps -> in_stamp s i j = true ->
+                   cell b i j = cell (st_src s) (i - st_row s) (j - st_col s)) /\
+    (forall i j, (forall s, In s stamps -> in_stamp s i j = false) ->
+                 cell b i j = if existsb (fun s => pads s i j) stamps then Some SP else None).
+Proof.
+  intros Hs Hall. apply render_list_determined; [exact Hs|now apply plain_items_width|apply label_width_all].
+Qed.
+
+Lemma plain_list_blank_elsewhere kind columns items forced spacing kp w b :
+  (0 <= spacing)%Z -> Forall plain_tree items ->
+  render_tree (WList kind columns items forced spacing kp) w = ROk b ->
+  let cw := list_columns_width columns forced spacing w in
+  let omap := ordered_map kind (length items) (Z.to_nat columns) in
+  exists rendered,
+    render_all_items render_tree items 0 cw kp = ROk rendered /\
+    let lpr := lines_per_every_row omap (map item_height rendered) in
+    forall y x ch, cell b y x = Some ch ->
+      (forall k r i, k < length omap -> nth_error (nth k omap []) r = Some i ->
+         item_covers rendered (i, (rowstart lpr r, k * Z.to_nat (cw + spacing))) y x = false) ->
+      ch = SP.
+Proof.
+  intros Hs Hall. apply render_list_blank_elsewhere; [exact Hs|now apply plain_items_width|apply label_width_all].
+Qed.
+
+Lemma plain_list_blank_outside_rects kind columns items forced spacing kp w b :
+  (0 <= spacing)%Z -> Forall plain_tree items ->
+  render_tree (WList kind columns items forced spacing kp) w = ROk b ->
+  let cw := list_columns_width columns forced spacing w in
+  let omap := ordered_map kind (length items) (Z.to_nat columns) in
+  exists rendered,
+    render_all_items render_tree items 0 cw kp = ROk rendered /\
+    let lpr := lines_per_every_row omap (map item_height rendered) in
+    forall y x ch, cell b y x = Some ch ->
+      (forall k r i, k < length omap -> nth_error (nth k omap []) r = Some i ->
+         ~ (rowstart lpr r <= y < rowstart lpr r + item_height (nth i rendered ([], None)) /\
+            k * Z.to_nat (cw + spacing) <= x < k * Z.to_nat (cw + spacing) + Z.to_nat cw)) ->
+      ch = SP.
+Proof.
+  intros Hs Hall. apply render_list_blank_outside_rects; [exact Hs|now apply plain_items_width|apply label_width_all].
+Qed.
